@@ -177,7 +177,7 @@ theorem na_step (c : Cfg) (s s' : Sys D) (now a x : Nat) (h : Step c s now s')
   | crash y => exact hna
   | net cuts => exact hna
   | drop m hm hc => exact hna
-  | tick b shuf hb =>
+  | tick b shuf hb _ =>
     by_cases hab : a = b
     · subst hab; rw [node_commit_same]; exact na_onTick c a now x shuf _ hna
     · rw [node_commit_other _ _ _ _ _ _ hab]; exact hna
